@@ -30,6 +30,31 @@ var subcommands = []subcommand{
 		short: "translate grammar/grammar.go (T1) and grammar/grammar.peg (T2) to Lean PEG tables",
 		run:   runGrammar,
 	},
+	{
+		name:  "tables",
+		short: "extract dispatch tables, operator tables and function token lists (T3) to BexprGen/Tables.lean",
+		run:   runTables,
+	},
+	{
+		name:  "effects",
+		short: "extract the syntactic effect summary of the evaluator (T4) to BexprGen/Effects.lean",
+		run:   runEffects,
+	},
+	{
+		name:  "options",
+		short: "extract option setters, defaults and parser budget plumbing (T5) to BexprGen/Options.lean",
+		run:   runOptions,
+	},
+}
+
+// `all` is registered at init time: runAll walks the table above, so naming it
+// in the table's own initialiser would be an initialisation cycle.
+func init() {
+	subcommands = append(subcommands, subcommand{
+		name:  "all",
+		short: "run grammar, tables, effects, options in sequence (exit code = max)",
+		run:   runAll,
+	})
 }
 
 func usage() {
